@@ -561,6 +561,7 @@ func runC13(c *Ctx) {
 	c.withRule("R11", func() { checkStatusCaseNextToDataCase(c, "Z6") })
 	// R12: the lowest failing offset is elected among offsets that did not wrap (shared with C12.R10)
 	c.withRule("R12", func() { checkChunkOffsetsCannotWrap(c, "R10") })
+	checkShortChunkEndsTransfer(c, "R13")
 
 	// R7: ReadFrom / ReadFromWithConcurrency leave the File offset at the end of the intact prefix
 	checkOffsetStores(c, "R7", map[string]bool{"(*File).ReadFrom": true, "(*File).readFromWithConcurrency": true})
@@ -1484,4 +1485,55 @@ func checkChunkOffsetsCannotWrap(c *Ctx, rule string) {
 		}
 	}
 	c.check(n >= 6, rule, "requests of the multi-chunk paths", "?", fmt.Sprintf("%d request sites", n), fmt.Sprintf("only %d request sites found", n))
+}
+
+// checkShortChunkEndsTransfer (C13.R13, C01.R14): the concurrent read paths request their chunks at fixed offsets
+// off, off+chunk, … before any answer is in.  A DATA reply shorter than its chunk is the end of the file at that
+// moment; if the file has grown since, the chunk requested at the next offset does carry data, and taking it as the
+// continuation puts a hole into the copy — with a nil error.  Every worker that copies a DATA payload into a chunk
+// buffer must therefore compare the copied length with the chunk's length and record io.EOF when it is short (readAt
+// does; the reducers stop at the lowest offset that reported an error and return the prefix).
+func checkShortChunkEndsTransfer(c *Ctx, rule string) {
+	p := c.P
+	n := 0
+	for _, name := range []string{"(*File).readAt", "(*File).WriteTo"} {
+		outer := p.Func(name)
+		if outer == nil {
+			c.missing(rule, name)
+			continue
+		}
+		for _, fn := range outer.AnonFuncs {
+			// a worker: decodes DATA and copies it
+			for _, in := range anyCallsWhere(fn, func(cc *ssa.CallCommon) bool { return builtinName(cc) == "copy" }) {
+				call, ok := in.(*ssa.Call)
+				if !ok {
+					continue
+				}
+				n++
+				short := false
+				for _, r := range *call.Referrers() {
+					bo, ok := r.(*ssa.BinOp)
+					if !ok || !(bo.Op == token.LSS && bo.X == call || bo.Op == token.GTR && bo.Y == call) {
+						continue
+					}
+					for _, rr := range *bo.Referrers() {
+						iff, ok := rr.(*ssa.If)
+						if !ok {
+							continue
+						}
+						for _, x := range iff.Block().Succs[0].Instrs {
+							if u, ok := x.(*ssa.UnOp); ok && u.Op == token.MUL {
+								if g, ok := u.X.(*ssa.Global); ok && g.Name() == "EOF" && g.Pkg.Pkg.Path() == "io" {
+									short = true
+								}
+							}
+						}
+					}
+				}
+				c.check(short, rule, fnName(fn)+": a DATA reply shorter than its chunk ends the transfer at that offset", p.Pos(in.Pos()), "n < chunk length records io.EOF",
+					"the worker accepts a short DATA reply as an ordinary chunk: when the file grows during the transfer the chunk requested at the next fixed offset is appended behind it and the copy has a hole, with a nil error and a count that is not a prefix")
+			}
+		}
+	}
+	c.check(n >= 2, rule, "workers that copy DATA payloads", "?", fmt.Sprintf("%d copies", n), fmt.Sprintf("only %d found (readAt, WriteTo expected)", n))
 }
